@@ -65,6 +65,12 @@ PROPS = {
     "C02": dict(ZOO, level="exploration", variants={"quick": ["checked"], "thorough": ["checked", "wrapping"]}, shards={"quick": 16, "thorough": 16},
                 assumptions=["R-PER transcribes X.691 (2015) from memory (Appendix A of DESIGN.md); encoder and decoder of the reference are checked against each other on every case (a mismatch is INCONCLUSIVE)",
                              "recorded deviations are pinned by deviation models: the writer must match the alternative rule exactly"]),
+    "C03": dict(ZOO, level="exploration", variants={"quick": ["checked"], "thorough": ["checked"]}, shards={"quick": 16, "thorough": 16},
+                assumptions=["component types of known fixed width (INTEGER (0..7), BOOLEAN, INTEGER (0..255) DEFAULT 5)", "automatic tagging, so the canonical SET order equals the textual order"]),
+    "C05": dict(ZOO, level="exploration", variants={"quick": ["checked"], "thorough": ["checked"]}, shards={"quick": 16, "thorough": 16},
+                assumptions=["the expected view of the other version comes from the R-PER decoder run with the other version's schema"]),
+    "C06": dict(ZOO, level="exploration", variants={"quick": ["checked"], "thorough": ["checked", "wrapping"]}, shards={"quick": 16, "thorough": 16},
+                assumptions=["only violating values the generated Rust type can hold are judged (u8 cannot hold 256)", "UTF8String SIZE is counted in characters, as the generated constraint does"]),
 }
 
 
